@@ -494,7 +494,7 @@ def context_programs():
         'top_decorator': '@ident\ndef f(a, b, c, l):\n    return h(a) and b\n',
         'inner_docstring': 'def f(a, b, c, l):\n    def g(p):\n        "inner"\n        return h(p)\n    return g(a)\n',
         'fscope_clash': 'def f(a, b, c, l):\n    fscope = a\n    def g(fscope_1):\n        return h(fscope_1)\n    return g(fscope) + len([lambda: h(a)])\n',
-        'qn_shapes': 'def f(a, b, c, l):\n    t = {"k": h, 0: h}\n    return t["k"](a) + t[0](b) + [h][0](c) + o_(a).v\ndef o_(v):\n    return Obj(v)\n',
+        'qn_shapes': 'def o_(v):\n    return Obj(v)\ndef f(a, b, c, l):\n    t = {"k": h, 0: h}\n    return t["k"](a) + t[0](b) + [h][0](c) + o_(a).v\n',
         'ag_user_call': 'def f(a, b, c, l):\n    ag__ = Obj(a)\n    return ag__.m(b)\n',
         'pass_only': 'def f(a, b, c, l):\n    pass\n',
     }
